@@ -22,8 +22,11 @@ func C07_reader_text() {
 		wire = vEncode(vFrame{fin: true, op: op, masked: server, key: key, payload: p})
 	} else {
 		wire = vEncode(vFrame{fin: false, op: op, masked: server, key: key, payload: p[:split]})
-		if vChoose("ctl", 2) == 1 {
+		switch vChoose("ctl", 3) {
+		case 1:
 			wire = append(wire, vEncode(vFrame{fin: true, op: 9, masked: server, key: key, payload: []byte{0xff}})...)
+		case 2: // an empty fragment between the two halves
+			wire = append(wire, vEncode(vFrame{fin: false, op: 0, masked: server, key: key})...)
 		}
 		wire = append(wire, vEncode(vFrame{fin: true, op: 0, masked: server, key: key, payload: p[split:]})...)
 	}
